@@ -233,6 +233,24 @@ def solo(th) -> str:
     return canon_out(lambda: p.evaluate(b))
 
 
+def solo_ops(th):
+    """the thread's evaluation as a c05 history (run alone in a pristine process)"""
+    return [["E", th["runner"], None, []], ["P", 0, {"src": cel_text(th["expr"])}],
+            ["G", 0, 0, {"form": "dict", "fns": [["gate", "ident", 0]]}], ["V", 0, [[k, ["i", v]] for k, v in th["binds"]]]]
+
+
+def solo_canon(obs) -> str:
+    """[model, rich] of the evaluate step (c05_worker) -> this module's outcome format"""
+    import re
+    m, r = obs
+    if m.startswith("value "):
+        return m[6:]
+    if m == "err":
+        k = re.search(r"no such member in mapping: '(\w+)'", r) or re.search(r"undeclared reference to '(\w+)'", r)
+        return "err" + (":key:" + k.group(1) if k else "")
+    return m
+
+
 # ---- (1) deterministic replay with host-function gates -------------------------------------------
 
 def gate_replay(threads) -> List[str]:
@@ -405,10 +423,9 @@ def explore(threads, bound: int, rng: random.Random, budget: int):
 
 # ---- (3) free-running stress ------------------------------------------------------------------------
 
-def stress(threads, reps: int, seconds: float):
+def stress(threads, reps: int, seconds: float, expect: List[str]):
     """every thread builds its own environment and program and evaluates `reps` times, free-running with a tiny
     switch interval; returns the list of (thread, outcome) that differ from the solo outcome"""
-    expect = [solo(t) for t in threads]
     bad: List[Any] = []
     old = sys.getswitchinterval()
     start = threading.Barrier(len(threads))
@@ -614,6 +631,7 @@ class C16(Prop):
     def __init__(self):
         self._cache: Dict[str, Any] = {}
         self._alone: Dict[str, Any] = {}
+        self._solo: Dict[str, str] = {}
         self._tier = "quick"
 
     def generate(self, rng, tier):
@@ -643,8 +661,32 @@ class C16(Prop):
                 for o in step_orders(rng, [len(t) for t in ths], 9 if quick else 40):
                     steps.append({"kind": "steps", "family": name, "threads": ths, "order": o})
         from ..core import corpus_cases
+        self.prefetch_solo([c for c in corpus_cases(self.pid) + cases if c.get("kind") in ("gate", "explore", "stress")])
         self.prefetch_steps([c for c in corpus_cases(self.pid) if c.get("kind") == "steps"] + steps, 300 if quick else 1500)
         return cases + steps
+
+    # ---- solo outcomes come from pristine processes, so that nothing an earlier scenario left behind in this process
+    # ---- can hide (or fake) an interference
+    def prefetch_solo(self, cases, timeout=300):
+        from .c05 import run_jobs
+        jobs = {}
+        for c in cases:
+            for th in c["threads"]:
+                k = json.dumps(solo_ops(th))
+                if k not in self._solo:
+                    jobs[k] = solo_ops(th)
+        if not jobs:
+            return
+        res = run_jobs([{"id": k, "ops": v} for k, v in jobs.items()], timeout)
+        for k in jobs:
+            obs = res[k].get("obs")
+            self._solo[k] = solo_canon(obs[-1]) if obs else "HARNESS-CRASH"
+
+    def solo_of(self, th) -> str:
+        k = json.dumps(solo_ops(th))
+        if k not in self._solo:
+            self.prefetch_solo([{"threads": [th]}])
+        return self._solo[k]
 
     # ---- step-ordered scenarios run in pristine processes (pool of c05_worker) ---------------------------------
     def prefetch_steps(self, cases, timeout):
@@ -680,7 +722,7 @@ class C16(Prop):
             self.prefetch_steps([c], 300)
             return self._cache[k]["out"]
         ths = c["threads"]
-        info: Dict[str, Any] = {"solo": [solo(t) for t in ths]}
+        info: Dict[str, Any] = {"solo": [self.solo_of(t) for t in ths]}
         if c["kind"] == "gate":
             r = gate_replay(ths)
             out = " ".join(f"{i}={x}" for i, x in enumerate(r))
@@ -689,7 +731,7 @@ class C16(Prop):
             info.update(runs=runs, points=pts, witness=wit)
             out = " ".join(f"{i}=" + ",".join(s) for i, s in enumerate(sets))
         elif c["kind"] == "stress":
-            bad = stress(ths, c.get("reps", 300), 60 if self._tier == "quick" else 240)
+            bad = stress(ths, c.get("reps", 300), 60 if self._tier == "quick" else 240, info["solo"])
             info["bad"] = bad
             out = "stress-ok" if not bad else "stress-bad " + json.dumps(bad[:3])
         else:
